@@ -26,7 +26,11 @@ ASSUMPTIONS = [
     "the hand model of load_image_band (guards, slicing, NAXIS2/CRPIX2 update) is tied to the code only by this "
     "sampled correspondence; the two row-bound expressions are regenerated from source on every run",
 ]
-TRUSTED = ["Gen.C20.rowMin/rowMax regenerated from fits_tools.load_image_band by py2lean.py (int mode)"]
+TRUSTED = ["Gen.C20.rowMin/rowMax regenerated from fits_tools.load_image_band by py2lean.py (int mode)",
+           "Gen.C20.guard / hdr…P / hdr…C / sec… / cmp… : the validation prologue, the header adjustments of both return sites, the "
+           "NAXIS dispatch with its .section subscripts and the compressed-branch subscript, sliced out of the AST by "
+           "translator/targets/C20.py and translated by py2lean.py; Model.C20.loadFull (the glue between the pieces, and the "
+           "reading of numpy/astropy subscripts as list slices) is hand-written and tied by the `full` correspondence"]
 PARTIAL = []
 
 COLS = 3
@@ -295,6 +299,148 @@ def invalid_cases(ctx):
         ctx.case(case, nontrivial_key=('band', i, n) if want_spec == 'err' else None)
 
 
+def full_cases(ctx, count):
+    """Correspondence of the WHOLE function with `Model.C20.loadFull genPieces` (driver op `full`): random small images of
+    every dimensionality with index-valued pixels and an integer CRPIX2, every band of n, valid and invalid band
+    specifications, existing and missing planes, 5-D files, compressed files.  The implementation's own output is also
+    judged against the property directly (bands concatenated = the requested plane, NAXIS2 = rows held, CRPIX2 lowered by
+    the rows before the band)."""
+    from astropy.io import fits
+    from AegeanTools import fits_tools
+    from AegeanTools.exceptions import AegeanError
+    rng = ctx.rng
+    jobs = []
+    for k in range(count):
+        naxis = rng.choice([2, 2, 3, 3, 4, 4, 4, 5]) if k % 9 else 5
+        comp = (naxis == 2 and rng.random() < 0.3)
+        n3 = rng.randint(1, 3) if naxis >= 3 else 1
+        n4 = rng.randint(1, 2) if naxis >= 4 else 1
+        rows, cols = rng.randint(1, 12), rng.randint(1, 5)
+        if comp:
+            rows, cols = rng.randint(6, 14), rng.randint(4, 6)
+        crpix2 = rng.choice([1, 5, -3, 40, 7])
+        n = rng.randint(1, 6)
+        cube = rng.randint(0, n3 - 1) if rng.random() < 0.85 else n3 + rng.randint(0, 1)
+        if naxis == 2 and rng.random() < 0.5:
+            cube = rng.randint(0, 2)          # ignored for a 2-D image
+        bands = [(i, n) for i in range(n)]
+        if rng.random() < 0.3:
+            bands += [(n, n), (-1, n), (0, 0), (1, -2)][:rng.randint(1, 4)]
+        jobs.append(dict(naxis=naxis, comp=comp, n4=n4, n3=n3, rows=rows, cols=cols, crpix2=crpix2, n=n, cube=cube, bands=bands))
+    lines, meta = [], []
+    for jb in jobs:
+        naxis, n4, n3, rows, cols = jb['naxis'], jb['n4'], jb['n3'], jb['rows'], jb['cols']
+        arr = np.arange(n4 * n3 * rows * cols, dtype=np.float64).reshape(n4, n3, rows, cols)
+        data = {2: arr[0, 0], 3: arr[0], 4: arr, 5: arr[None]}[naxis]
+        hdu = fits.PrimaryHDU(data.astype(np.float64))
+        for kk, v in HEADER.items():
+            hdu.header[kk] = v
+        hdu.header['CRPIX2'] = float(jb['crpix2'])
+        _file_counter[0] += 1
+        path = os.path.join(ctx.tmpdir(), f'work{_file_counter[0] % 2}.fits')
+        hdul = fits.HDUList([hdu])
+        ref_plane = None
+        m_rows, m_cols, m_crpix2 = rows, cols, jb['crpix2']
+        if jb['comp']:
+            hdul = fits_tools.compress(hdul, 2, None)
+        hdul.writeto(path, overwrite=True, output_verify='silentfix')
+        if jb['comp']:
+            ex = fits_tools.expand(path)
+            ref_plane = np.array(ex[0].data, dtype=float)
+            m_rows, m_cols = ref_plane.shape
+            c2 = float(ex[0].header['CRPIX2'])
+            if abs(c2 - round(c2)) > 1e-9:
+                ctx.count('full:skipped-noninteger-crpix2')
+                continue
+            m_crpix2 = int(round(c2))
+        elif naxis in (2, 3, 4):
+            if naxis == 2:
+                ref_plane = arr[0, 0]
+            elif jb['cube'] < n3:
+                ref_plane = arr[0, jb['cube']]
+        got = []
+        for (i, n) in jb['bands']:
+            try:
+                d, h = fits_tools.load_image_band(path, band=(i, n), cube_index=jb['cube'])
+                d = np.array(d, dtype=float)
+                got.append(('ok', d, int(h['NAXIS2']), float(h['CRPIX2'])))
+            except AegeanError:
+                got.append(('guard',))
+            except IndexError:
+                got.append(('index',))
+            except Exception as e:
+                got.append(('tooManyAxes',) if 'NAXIS' in str(e) else ('other:' + type(e).__name__ + ':' + str(e)[:80],))
+            lines.append(f"full {int(jb['comp'])} {naxis} {n4} {n3} {m_rows} {m_cols} {m_crpix2} {jb['cube']} {i} {n}")
+        meta.append((jb, got, ref_plane, m_rows, m_cols, m_crpix2))
+    outs = ctx.driver.batch(lines) if ctx.driver_ok else None
+    pos = 0
+    for jb, got, ref_plane, m_rows, m_cols, m_crpix2 in meta:
+        case = {k: jb[k] for k in ('naxis', 'comp', 'n4', 'n3', 'rows', 'cols', 'crpix2', 'n', 'cube')}
+        case['full'] = True
+        sig_base = dict(site='load_image_band', what='full')
+        # ---- the property, on the implementation's own output (valid bands of an existing plane)
+        if ref_plane is not None:
+            oks = [g for (b, g) in zip(jb['bands'], got) if 0 <= b[0] < b[1]]
+            bad = None
+            if any(g[0] != 'ok' for g in oks):
+                bad = f"a valid band was rejected: {[g[0] for g in oks]}"
+            else:
+                cur = 0
+                for g in oks:
+                    _, d, nax2, c2 = g
+                    if d.ndim != 2 or d.shape[1] != ref_plane.shape[1]:
+                        bad = f"band shape {d.shape}"
+                        break
+                    if nax2 != d.shape[0] or abs((m_crpix2 - c2) - cur) > 1e-9 or \
+                            not np.array_equal(d, ref_plane[cur:cur + d.shape[0]], equal_nan=True):
+                        bad = (f"band starting at row {cur}: NAXIS2 {nax2}, rows held {d.shape[0]}, CRPIX2 {c2} (image {m_crpix2}), "
+                               f"values equal rows [{cur},{cur + d.shape[0]}): {np.array_equal(d, ref_plane[cur:cur + d.shape[0]], equal_nan=True)}")
+                        break
+                    cur += d.shape[0]
+                if bad is None and cur != ref_plane.shape[0]:
+                    bad = f"the bands hold {cur} rows, the image has {ref_plane.shape[0]}"
+            if bad:
+                ctx.fail('spec', case, "whole-function case: " + bad, dict(sig_base, variant=('compressed' if jb['comp'] else f"{jb['naxis']}d")))
+        # ---- correspondence with the assembled model
+        for b, g in zip(jb['bands'], got):
+            ml = outs[pos] if outs is not None else None
+            pos += 1
+            if ml is None:
+                continue
+            w = ml.split()
+            if g[0] != 'ok':
+                want = {'guard': 'err guard', 'index': 'err index', 'tooManyAxes': 'err tooManyAxes'}.get(g[0])
+                if want is None or not ml.startswith(want):
+                    # numpy truncates silently where the model says `shape` / astropy raises other errors: judged only as "both fail"
+                    if not (ml.startswith('err') and g[0].startswith('other')):
+                        ctx.fail('corr', dict(case, band=list(b)), f"implementation {g[0]}, assembled model {ml[:60]}", sig_base)
+                continue
+            if w[0] != 'ok':
+                ctx.fail('corr', dict(case, band=list(b)), f"implementation returned a band, assembled model says {ml[:60]}", sig_base)
+                continue
+            _, d, nax2, c2 = g
+            body = ml.split(' ', 3)[3] if len(w) > 3 else ''
+            mrows = [[int(x) for x in r.split()] for r in body.split(';')] if body else []
+            ref = ref_plane if ref_plane is not None else None
+            okk = (int(w[1]) == nax2 and int(w[2]) == int(round(c2)) and abs(c2 - round(c2)) < 1e-9 and len(mrows) == d.shape[0])
+            if okk and ref is not None and d.ndim == 2:
+                # model pixels are (plane, row, col) indices; translate them to values of the reference plane
+                for mr, dr in zip(mrows, d):
+                    vals = [ref[(v // m_cols) % m_rows, v % m_cols] for v in mr]
+                    if len(vals) != len(dr) or not np.array_equal(np.array(vals, dtype=float), dr, equal_nan=True):
+                        okk = False
+                        break
+                    if not jb['comp'] and [float(v) for v in mr] != [float(x) for x in dr]:
+                        okk = False      # uncompressed: the stored values ARE the indices, plane included
+                        break
+            if not okk:
+                ctx.fail('corr', dict(case, band=list(b)),
+                         f"implementation NAXIS2 {nax2} CRPIX2 {c2} shape {d.shape}, assembled model {ml[:80]}", sig_base)
+        ctx.count('full:' + ('compressed' if jb['comp'] else f"{jb['naxis']}d"))
+        ctx.case(case, nontrivial_key=('full', jb['naxis'], jb['comp'], jb['rows'], jb['n'], jb['cube'] < jb['n3']) if jb['n'] >= 2 else None,
+                 sample_every=41)
+
+
 CORPUS = [(1, 49, '2d'), (5, 64, '2d'), (47, 3, 'compressed'), (7, 7, '2d'), (9, 4, 'bscale'), (100, 49, '2d'),
           (12, 3, '2d'), (9, 3, '2d'), (12, 5, '2d'), (9, 2, '4d-ext'), (9, 2, '4d-extdecoy'), (7, 5, '3d-ext'),
           (6, 4, '2d-ext'), (8, 3, 'bscale-ext'), (7, 5, '3d'), (7, 9, '4d')]
@@ -322,6 +468,7 @@ def run(ctx):
     cases = case_set(ctx, wide=not ctx.quick)
     run_cases(ctx, cases)
     invalid_cases(ctx)
+    full_cases(ctx, 120 if ctx.quick else 1500)
     # debug slice: the same corpus with the root and 'Aegean' loggers at DEBUG must behave identically
     import logging
     root, aeg = logging.getLogger(), logging.getLogger('Aegean')
@@ -361,7 +508,9 @@ def search(ctx):
 def replay(ctx, rec):
     common.use_repo()
     c = rec['case']
-    if 'band' in c:
+    if c.get('full'):
+        full_cases(ctx, 120)      # same seed, same stream: the failing case recurs
+    elif 'band' in c:
         invalid_cases(ctx)
     else:
         # re-create the state of the two working files: the cases that ran just before the failing one
